@@ -126,6 +126,15 @@ def gen_cases(tier, rng):
         for sb in shorts:
             add(k, slow_frame(sb), "short:slow")
             if k == 5 or len(sb) < 2: add(k, fp_frame(sb), "short:fast")
+    # every class of fast-path HEADER byte (action bits, numberEvents bits, the two security-flag bits: secure checksum 0x40,
+    # encrypted 0x80) in front of empty / short / valid bodies, in both length forms, in every state
+    fp_valid = [b for (n_, b, _) in fast]
+    for k in range(6):
+        for action in (0x00, 0x01, 0x02, 0x04, 0x3c, 0x40, 0x41, 0x7c, 0x80, 0x81, 0xbc, 0xc0, 0xc1, 0xfc, 0xff):
+            bodies = [bytes(n) for n in range(0, 10)] + [bytes([5, 0, 0]), bytes([1, 1, 0, 0])] + (fp_valid if k == 5 or not quick else fp_valid[:1])
+            for body in bodies:
+                add(k, fp_frame(body, action=action), "fphdr")
+                if len(body) < 6: add(k, fp_frame(body, action=action, long=True), "fphdr")
     return cases
 
 def classify(line, out):
